@@ -115,6 +115,48 @@ func visitOne(r *Report, t DVTarget, fields []string, doc uint64, st segment.Doc
 	return st2
 }
 
+// visitWidened calls VisitDocValues with the list `call` on a state made for
+// `own` (a prefix of it) and compares only the fields of `own`.
+func visitWidened(r *Report, t DVTarget, own, call []string, doc uint64, st segment.DocVisitState) segment.DocVisitState {
+	dv := t.Seg.(segment.DocValueVisitable)
+	mine := map[string]bool{}
+	for _, f := range own {
+		mine[f] = true
+	}
+	got := map[string]map[string]int{}
+	st2, err := dv.VisitDocValues(doc, call, func(field string, term []byte) {
+		if !mine[field] {
+			return
+		}
+		if got[field] == nil {
+			got[field] = map[string]int{}
+		}
+		got[field][string(term)]++
+	}, st)
+	if err != nil {
+		r.Fail("dv-err", "%s[widened]: VisitDocValues(%d): %v", t.Tag, doc, err)
+		return st2
+	}
+	for _, f := range own {
+		var exp map[string]bool
+		if per := t.M.DV[f]; per != nil && doc < uint64(len(per)) {
+			exp = per[doc]
+		}
+		for term, n := range got[f] {
+			if !exp[term] || n != 1 {
+				r.Fail("dv-extra", "%s[widened]: doc %d field %q: term %s reported %d times, expected: %v", t.Tag, doc, f, short([]byte(term)), n, exp[term])
+			}
+		}
+		for term := range exp {
+			if got[f][term] == 0 {
+				r.Fail("dv-missing", "%s[widened]: doc %d field %q: term %s not reported", t.Tag, doc, f, short([]byte(term)))
+			}
+		}
+	}
+	r.Inc("dv_visits_with_a_widened_field_list", 1)
+	return st2
+}
+
 // CheckDocValues runs the visit disciplines of C03 over one or two targets.
 // chunk is the doc-value chunk size in effect (for counters only).
 func CheckDocValues(r *Report, ts []DVTarget, rng *rand.Rand, chunk uint64, extraFields []string) {
@@ -165,6 +207,23 @@ func CheckDocValues(r *Report, ts []DVTarget, rng *rand.Rand, chunk uint64, extr
 			var st2 segment.DocVisitState
 			for d := uint64(0); d < n; d++ {
 				st2 = visitOne(r, t, sub, d, st2, "subset")
+			}
+			// that state is then handed a wider field list (same segment). What the
+			// added fields yield is not part of C03 (state reuse is promised for the
+			// same field list); the fields the state was made for must stay exact, and
+			// the call is an ordinary concurrent read for C11
+			for d := uint64(0); d < n; d += 1 + n/8 {
+				st2 = visitWidened(r, t, sub, fields, d, st2)
+			}
+			// and a state made for one doc-value field only, widened to all of them
+			if len(t.M.DVField) >= 2 && n > 0 {
+				one := fields[:1]
+				var st3 segment.DocVisitState
+				st3 = visitOne(r, t, one, 0, st3, "one-field")
+				st3 = visitOne(r, t, one, n-1, st3, "one-field")
+				for d := uint64(0); d < n; d += 1 + n/8 {
+					st3 = visitWidened(r, t, one, fields, d, st3)
+				}
 			}
 		}
 	}
